@@ -420,7 +420,7 @@ class T:
             if not is_list(tit):
                 raise TranslateError("for over non-list")
             v = s.target.id
-            state = sorted(_assigned(s.body))
+            state = _assigned(s.body)
             if v in state:
                 raise TranslateError("loop variable reassigned")
             for x in state:
@@ -465,21 +465,32 @@ def _ends(stmts):
 
 
 def _assigned(stmts):
-    out = set()
-    for s in stmts:
-        for n in ast.walk(s):
+    """names (re)assigned in a loop body, in order of first assignment (so that renaming a variable does not reorder
+    the loop-carried tuple)"""
+    out = []
+
+    def add(x):
+        if x not in out:
+            out.append(x)
+
+    class V(ast.NodeVisitor):
+        def generic_visit(self, n):
             if isinstance(n, (ast.Return, ast.Break, ast.Continue, ast.While)):
                 raise TranslateError(f"{type(n).__name__} inside a loop body")
+            if isinstance(n, ast.For):
+                raise TranslateError("nested loop")
             if isinstance(n, ast.Assign):
                 for t in n.targets:
-                    out.add(_target_name(t))
+                    add(_target_name(t))
             elif isinstance(n, ast.AugAssign):
-                out.add(_target_name(n.target))
+                add(_target_name(n.target))
             elif isinstance(n, ast.Call) and isinstance(n.func, ast.Attribute) and n.func.attr == "append" \
                     and isinstance(n.func.value, ast.Name):
-                out.add(n.func.value.id)
-            elif isinstance(n, ast.For):
-                raise TranslateError("nested loop")
+                add(n.func.value.id)
+            super().generic_visit(n)
+
+    for s in stmts:
+        V().visit(s)
     return out
 
 
